@@ -258,7 +258,10 @@ def gen_row_stage(rng, kinds, nx, nu):
     if k == 'angle':
         n = nx + nu
         m = rng.randint(0, min(2, n))
-        return {'k': 'angle', 'feat': sorted(rng.sample(range(n), m))}
+        feat = rng.sample(range(n), m)          # any order is valid (the documentation only asks for indices)
+        if rng.random() < 0.5:
+            feat = sorted(feat)
+        return {'k': 'angle', 'feat': feat}
     if k == 'rbf':
         c = rng.choice(['grid', 'uniform', 'qmc', 'data'] if nx + nu <= 5 else ['uniform', 'qmc', 'data'])
         sp = {'k': 'rbf', 'centers': c, 'rbf': rng.choice(['gaussian', 'exponential', 'multiquadric',
